@@ -475,6 +475,48 @@ def unused(ctx, R, py, modules, cx=None):
     return n
 
 
+def member(ctx, R, py, modules):
+    """MEMBER -- `x in c` asks whether x is one of the elements of c.  When c has been turned into one string (", ".join(labels),
+    str(list)) the same expression asks whether x occurs somewhere inside that text: 'E' is found in 'S, ES, P', an undeclared
+    label passes a check that was written for a list."""
+    n = 0
+    for mn in modules:
+        m = py.mods.get(mn)
+        ctx.need(m is not None, R, "module %s not found" % mn)
+        for f in m.funcs.values():
+            tests = [c for c in ast.walk(f) if isinstance(c, ast.Compare) and len(c.ops) == 1 and
+                     isinstance(c.ops[0], (ast.In, ast.NotIn)) and isinstance(c.comparators[0], ast.Name)]
+            if not tests:
+                continue
+            defs = {}
+            for st in ast.walk(f):
+                if isinstance(st, ast.Assign) and len(st.targets) == 1 and isinstance(st.targets[0], ast.Name):
+                    defs.setdefault(st.targets[0].id, []).append(st.value)
+            for c in tests:
+                nm = c.comparators[0].id
+                ds = defs.get(nm, [])
+                if not ds:
+                    continue
+
+                def texty(v):
+                    if isinstance(v, ast.JoinedStr):
+                        return True
+                    if isinstance(v, ast.Call) and isinstance(v.func, ast.Attribute) and v.func.attr in ("join", "format"):
+                        return True
+                    if isinstance(v, ast.Call) and isinstance(v.func, ast.Name) and v.func.id in ("str", "repr"):
+                        return True
+                    if isinstance(v, ast.BinOp) and isinstance(v.op, (ast.Add, ast.Mod)):
+                        return texty(v.left) or texty(v.right) or (isinstance(v.left, ast.Constant) and isinstance(v.left.value, str))
+                    return False
+                bad = [v for v in ds if texty(v)]
+                n += 1
+                ctx.check(not bad, R, c, f._qual, pyfe.src(c)[:60], "membership in a collection",
+                          "`%s` is text here (`%s = %s`): the test is a substring search, so a value that merely occurs inside "
+                          "another element (or inside the separator) counts as present" % (nm, nm, pyfe.src(bad[0])[:50] if bad else ""),
+                          nontrivial=False)
+    return n
+
+
 def run(ctx, pid, py, modules, truth_floor=1):
     from . import truth
     truth.rule(ctx, pid + ".TRUTH", py, modules, floor=truth_floor)
@@ -485,6 +527,7 @@ def run(ctx, pid, py, modules, truth_floor=1):
     query(ctx, pid + ".QUERY", py, modules)
     memo(ctx, pid + ".MEMO", py, modules)
     copyout(ctx, pid + ".COPYOUT", py, modules)
+    member(ctx, pid + ".MEMBER", py, modules)
     unused(ctx, pid + ".PARAMS", py, modules, ctx.cx if pid in CX_PROPS else None)
     if pid in CX_PROPS or pid in ("C07", "C16"):
         from . import cxacc
